@@ -118,6 +118,45 @@ def install_simhash(salt):
         cls.__hash__ = h
 
 
+# ---- locale: the encoding an open() without an explicit one would get (DESIGN.md 9.6) ----
+_LOCALE = {"enc": "utf-8"}
+LOCALES = ["utf-8", "utf-8", "utf-8", "utf-8", "utf-8", "latin-1", "latin-1", "cp1252"]
+_LOCALE_MODULES = ["esp_kconfiglib.core", "esp_kconfiglib.deprecated", "esp_kconfiglib.report", "kconfgen.core", "kconfserver.core",
+                   "kconfcheck.core", "kconfcheck.check_deprecated_options", "esp_menuconfig.model", "esp_menuconfig.app",
+                   "esp_menuconfig.idf_headers"]
+
+
+def current_locale():
+    return _LOCALE["enc"]
+
+
+def _locale_open(path, mode="r", buffering=-1, encoding=None, errors=None, newline=None, closefd=True, opener=None):
+    import builtins
+
+    if "b" not in mode and encoding is None:
+        encoding = _LOCALE["enc"]
+    return builtins.open(path, mode, buffering, encoding, errors, newline, closefd, opener)
+
+
+def install_locale(scenario):
+    """The locale's preferred encoding is part of the environment a tool run meets; here it is a per-run knob (derived from
+    the scenario's salt unless given) that every text-mode open() *without an explicit encoding* in the modules under test
+    receives.  The shipped code always passes an encoding, so the knob is inert on it."""
+    import importlib
+
+    enc = scenario.get("locale") or LOCALES[(scenario.get("hash_salt", 0) >> 8) % len(LOCALES)]
+    _LOCALE["enc"] = enc
+    for name in _LOCALE_MODULES:
+        if name.startswith("esp_menuconfig") and "esp_menuconfig" not in sys.modules:
+            continue
+        try:
+            m = importlib.import_module(name)
+        except Exception:  # noqa: B902
+            continue
+        m.__dict__["open"] = _locale_open
+    return enc
+
+
 def new_kconfig(path, parser=1, policy=None, extra_env=None, renames=None):
     """Boot a node: fresh report singleton, explicit environment."""
     fresh_report()
